@@ -281,6 +281,20 @@ def check_region(ctx, reg, model, rc, tags, rng, origins=None, n_single=150):
     prebound = bool(rng.integers(0, 2))
     cat = fixtures.catalog(lon[sel], lat[sel], numpy.full(sel.size, 5.0), region=fixtures.region(3, 2, "0.5", "7", "-3") if prebound else None)
     tags = dict(tags, catalog_bound_to_other_region=prebound)
+    # history: the same catalog object was first reduced, in place, to a twin region listing the same cells under the same name and
+    # spacing with every cell active (the regions compare equal: flags are not part of a region's dictionary form); the flags of the
+    # region handed to the second call must still decide
+    twin_first = bool(reg.num_nodes <= 4000 and (tags.get("flags") or rng.integers(0, 3) == 0))
+    if twin_first:
+        from csep.core import regions as _regions
+        ok, twin, tb = ctx.call(_regions.CartesianGrid2D.from_origins, numpy.array(reg.origins()), dh=reg.dh, name=reg.name)
+        if ok:
+            ok, _r, tb = ctx.call(cat.filter_spatial, twin, in_place=True)
+            ctx.mon("history:filter_spatial(twin all-active) then filter_spatial(region)", 1)
+        if not ok:
+            twin_first = False
+            cat = fixtures.catalog(lon[sel], lat[sel], numpy.full(sel.size, 5.0))
+    tags = dict(tags, filtered_to_all_active_twin_first=twin_first)
     ok, kept, tb = ctx.call(cat.filter_spatial, reg, in_place=False)
     ctx.mon("agree:filter_spatial", 1)
     if not ok:
@@ -307,7 +321,7 @@ def check_region(ctx, reg, model, rc, tags, rng, origins=None, n_single=150):
         elif inside_sel_nonempty(masked, sel):
             ctx.violate("spatial_counts raised on a spatially filtered catalog", rc, observed=repr(cnt), tb=tb, tags=dict(tags, api="spatial_counts"))
         # unfiltered catalog with an outside event must be rejected
-        if masked[sel].any() and not masked[sel].all():
+        if masked[sel].any() and not masked[sel].all() and not twin_first:
             cat.region = reg
             ok, cnt2, tb = ctx.call(cat.spatial_counts)
             if ok:
